@@ -154,6 +154,16 @@ func (s *storage) ReceiveBlob(ctx context.Context, plainBR blob.Ref, source io.R
 	// Aggressively check for duplicates since there's nothing else to ensure we don't store blobs twice
 	if plainSize, _, err := s.fetchMeta(ctx, plainBR); err == nil {
 		log.Println("encrypt: duplicated blob received", plainBR)
+		// A duplicate is only acknowledged for bytes that match the ref:
+		// still consume and verify the source.
+		if h := plainBR.Hash(); h != nil {
+			if _, err := io.Copy(h, source); err != nil {
+				return sb, err
+			}
+			if !plainBR.HashMatches(h) {
+				return sb, blobserver.ErrCorruptBlob
+			}
+		}
 		return blob.SizedRef{Ref: plainBR, Size: uint32(plainSize)}, nil
 	}
 
